@@ -790,7 +790,10 @@ def execute(prop, scen):
                 raised = False
                 try:
                     if how == "fit":
-                        est.fit(data["y"].iloc[:2], fh=data["fh"])
+                        if rng.random() < 0.5:
+                            est.fit(data["y"].iloc[:2], fh=data["fh"])
+                        else:   # rejected at validation: a series that is not ordered in time
+                            est.fit(data["y"].iloc[::-1], fh=data["fh"])
                     elif how == "update":
                         est.update(bad, update_params=True)
                     else:
